@@ -14,6 +14,10 @@
 #include <sys/personality.h>
 
 #include "checks/stream_corpus.h"
+#include "draco/compression/point_cloud/point_cloud_sequential_decoder.h"
+#include "draco/compression/point_cloud/point_cloud_kd_tree_decoder.h"
+#include "draco/compression/mesh/mesh_sequential_decoder.h"
+#include "draco/compression/mesh/mesh_edgebreaker_decoder.h"
 #include "draco/compression/mesh/mesh_edgebreaker_encoder.h"
 #include "draco/compression/mesh/mesh_sequential_encoder.h"
 #include "draco/compression/point_cloud/point_cloud_kd_tree_encoder.h"
@@ -527,7 +531,32 @@ int main(int argc, char **argv) {
             ctx.fail("decoder-buffer-reuse:result-differs-from-fresh-buffer", "one DecoderBuffer + Decoder: " + hist);
             return;
           }
-          if (got.ok) ctx.state(got.digest);
+          if (got.ok) {
+            // a successful decode leaves the buffer describing the same bytes: everything decoded, and rewinding it to offset 0
+            // decodes the same geometry again
+            const Bytes &s2 = (*carriers)[c];
+            if ((size_t)shared.decoded_size() != s2.size()) {
+              ctx.fail("decoder-buffer-reuse:decoded-size-differs-from-stream-length",
+                       "one DecoderBuffer + Decoder: " + hist + " :: decoded_size " + std::to_string(shared.decoded_size()) + " of " + std::to_string(s2.size()));
+              return;
+            }
+            shared.StartDecodingFrom(0);
+            DecOut again;
+            if (s2[7] == TRIANGULAR_MESH) {
+              auto r = shared_dec.DecodeMeshFromBuffer(&shared);
+              again.ok = r.ok();
+              if (again.ok) again.digest = ordered_digest(*r.value(), r.value().get());
+            } else {
+              auto r = shared_dec.DecodePointCloudFromBuffer(&shared);
+              again.ok = r.ok();
+              if (again.ok) again.digest = ordered_digest(*r.value(), nullptr);
+            }
+            if (!again.ok || again.digest != got.digest) {
+              ctx.fail("decoder-buffer-reuse:rewound-buffer-decodes-differently", "one DecoderBuffer + Decoder: " + hist + " ; StartDecodingFrom(0)");
+              return;
+            }
+            ctx.state(got.digest);
+          }
         }
         ctx.nontrivial_unique();
       };
@@ -605,6 +634,67 @@ int main(int argc, char **argv) {
           idx /= n;
         }
         return "one output Mesh / PointCloud object reused by DecodeBufferToGeometry: " + hist;
+      };
+      R.add(sp);
+    }
+    // (a6) ONE low-level decoder object (MeshEdgebreakerDecoder / MeshSequentialDecoder / PointCloudKdTreeDecoder /
+    // PointCloudSequentialDecoder: public classes with a public Decode()) used for two streams of its kind: every ordered pair of
+    // the sub-corpus carriers (one per code-path signature) and the small files that share a decoder class.
+    {
+      auto pool = std::make_shared<std::vector<int>>(g_sub);
+      for (int f : g_files)
+        if (g_corpus[f].bytes.size() <= 4096) pool->push_back(f);
+      const uint64_t m = pool->size();
+      auto klass = [](const Bytes &b) { return b.size() > 8 ? b[7] * 2 + (b[8] ? 1 : 0) : -1; };
+      auto decode_low = [klass](PointCloudDecoder *d, const Bytes &s2, uint64_t *dg) -> int {
+        DecoderBuffer b;
+        b.Init(reinterpret_cast<const char *>(s2.data()), s2.size());
+        DecoderOptions o;
+        Status st;
+        if (klass(s2) >= 2) {
+          Mesh mm;
+          st = static_cast<MeshDecoder *>(d)->Decode(o, &b, &mm);
+          if (st.ok()) *dg = ordered_digest(mm, &mm);
+        } else {
+          PointCloud pp;
+          st = d->Decode(o, &b, &pp);
+          if (st.ok()) *dg = ordered_digest(pp, nullptr);
+        }
+        return st.ok() ? 1 : 0;
+      };
+      auto make_dec = [](int k) -> std::unique_ptr<PointCloudDecoder> {
+        switch (k) {
+          case 0: return std::unique_ptr<PointCloudDecoder>(new PointCloudSequentialDecoder());
+          case 1: return std::unique_ptr<PointCloudDecoder>(new PointCloudKdTreeDecoder());
+          case 2: return std::unique_ptr<PointCloudDecoder>(new MeshSequentialDecoder());
+          default: return std::unique_ptr<PointCloudDecoder>(new MeshEdgebreakerDecoder());
+        }
+      };
+      mc::Space sp;
+      sp.name = std::string(asan ? "asan_" : "") + "low_level_decoder_reuse_pairs";
+      sp.size = m * m;
+      sp.quick = sp.thorough = true;
+      sp.run = [=](uint64_t idx, mc::Ctx &ctx) {
+        const Bytes &A = g_corpus[(*pool)[idx / m]].bytes, &B = g_corpus[(*pool)[idx % m]].bytes;
+        if (klass(A) < 0 || klass(A) != klass(B)) {
+          ctx.count("pairs_of_different_decoder_classes_skipped");
+          return;
+        }
+        auto shared = make_dec(klass(A));
+        uint64_t d1 = 0, d2 = 0, r2 = 0;
+        decode_low(shared.get(), A, &d1);
+        const int ok2 = decode_low(shared.get(), B, &d2);
+        auto fresh = make_dec(klass(B));
+        const int okr = decode_low(fresh.get(), B, &r2);
+        ctx.count("decodes_on_reused_low_level_decoder");
+        if (ok2 != okr || d2 != r2) {
+          ctx.fail("low-level-decoder-reuse:result-differs-from-fresh-decoder", g_corpus[(*pool)[idx / m]].name + " ; " + g_corpus[(*pool)[idx % m]].name);
+          return;
+        }
+        ctx.nontrivial_unique();
+      };
+      sp.describe = [=](uint64_t idx) {
+        return "one low-level decoder object: " + g_corpus[(*pool)[idx / m]].name + " ; " + g_corpus[(*pool)[idx % m]].name;
       };
       R.add(sp);
     }
